@@ -1,8 +1,8 @@
 (* C04 protocol model WITH VALUES (LazyMap.v, repaired code): the abstract map
      absmap h = {(key n, value n) | n fully linked and not marked}
    is a partial function (at most one live node per key), it changes only at the three linearization steps
-   (SFull: the fullyLinked step of a Store that linked a new node, SWrite: the value write of a Store that found
-   its key, RMark on an unmarked victim: the marking step of a LoadAndDelete), and what these steps do to it. *)
+   (SFull / OFull: the fullyLinked step of a Store / LoadOrStore / LoadOrStoreLazy that linked a new node, SWrite: the value write of a Store that found
+   its key, RMark on an unmarked victim: the marking step of a LoadAndDelete / Delete), and what these steps do to it. *)
 From VF Require Import Common.Base C04.LazyMap C04.ProofsLazyMap C04.LzmReach C04.LzmLock.
 Local Open Scope Z_scope.
 
@@ -74,7 +74,7 @@ Qed.
 (* the program counters whose step is a linearization step *)
 Definition lin_pc (h : heap) (p : pc) : bool :=
   match p with
-  | SFull _ _ _ _ | SWrite _ _ _ | SWrite0 _ _ _ => true
+  | SFull _ _ _ _ | SWrite _ _ _ | SWrite0 _ _ _ | OFull _ _ _ _ _ _ => true
   | RMark _ _ v => negb (marked (get h v))
   | _ => false
   end.
@@ -87,6 +87,7 @@ Proof.
   - (* SLink *) rewrite abs_setn by reflexivity. now apply abs_app.
   - (* RMark, unmarked *) cbn [lin_pc] in N. match goal with H : marked _ = false |- _ => rewrite H in N end. discriminate.
   - (* RUnlink *) now apply abs_setn.
+  - (* OLink *) rewrite abs_setn by reflexivity. now apply abs_app.
 Qed.
 
 Lemma lin_pc_busy h p : lin_pc h p = true -> resting p = false.
@@ -139,19 +140,24 @@ Lemma present_live k c : (1 <= c)%nat -> valid (hp s) c -> live (get (hp s) c) =
   In (k, vl (hp s) c) (absmap (hp s)).
 Proof. intros P V L K. apply absmap_in. eauto 8. Qed.
 
-(* the fullyLinked step of a Store that linked a new node *)
-Lemma full_effect t th k v pred nn : nth_error (ths s) t = Some th -> at_pc th = SFull k v pred nn ->
+(* the fullyLinked step of a Store / LoadOrStore / LoadOrStoreLazy that linked a new node *)
+Lemma full_effect_core t th k v pred nn : nth_error (ths s) t = Some th ->
+  at_pc th = SFull k v pred nn \/ (exists lz n, at_pc th = OFull k v lz n pred nn) ->
   absentk k (hp s) /\
   forall k' v', In (k', v') (absmap (hp (step true s t))) <-> (k' = k /\ v' = v) \/ (k' <> k /\ In (k', v') (absmap (hp s))).
 Proof.
   intros E Ep. destruct (inv_pcs _ I1 t th E) as [P W]. pose proof (invr_flags _ IR t th E) as F.
-  rewrite Ep in P, F. cbn [pc_ok pc_flags] in P, F. destruct P as (Vp & Pn & Vn & Kn). destruct F as (Fv & Fm & Fl).
+  assert (PF : (valid (hp s) pred /\ victim_ok (hp s) k nn) /\
+               (value (get (hp s) nn) = v /\ marked (get (hp s) nn) = false /\ linked (get (hp s) nn) = false) /\
+               hp (step true s t) = setn (hp s) nn set_linked).
+  { destruct Ep as [Ep|(lz & n & Ep)]; rewrite Ep in P, F; cbn [pc_ok pc_flags] in P, F; (split; [exact P|split; [exact F|]]);
+      (destruct (step_at true s t th E) as [X _]; [now rewrite Ep|]); rewrite X, Ep; reflexivity. }
+  clear P F Ep. destruct PF as (P & F & EH).
+  destruct P as (Vp & Pn & Vn & Kn). destruct F as (Fv & Fm & Fl).
   assert (Rn : reach (hp s) 0 nn) by (apply (i3_r1 _ I3 nn Vn Fm)).
   assert (AB : absentk k (hp s)).
   { apply (absent_unique k nn Pn Rn Kn). apply live_false. now left. }
   split; [exact AB|].
-  assert (EH : hp (step true s t) = setn (hp s) nn set_linked).
-  { destruct (step_at true s t th E) as [X _]; [now rewrite Ep|]. rewrite X, Ep. reflexivity. }
   rewrite EH. intros k' v'. rewrite !absmap_in. split.
   - intros (x & Px & Vx & Lx & Kx & Xv). apply valid_setn in Vx.
     rewrite (fld_setn key) in Kx by reflexivity. rewrite (fld_setn value) in Xv by reflexivity.
@@ -167,6 +173,16 @@ Proof.
       rewrite (fld_setn key), (fld_setn value) by reflexivity. split; [|auto].
       destruct (Nat.eq_dec x nn) as [->|N]; [congruence|]. now rewrite get_setn_other.
 Qed.
+
+Lemma full_effect t th k v pred nn : nth_error (ths s) t = Some th -> at_pc th = SFull k v pred nn ->
+  absentk k (hp s) /\
+  forall k' v', In (k', v') (absmap (hp (step true s t))) <-> (k' = k /\ v' = v) \/ (k' <> k /\ In (k', v') (absmap (hp s))).
+Proof. intros E Ep. apply (full_effect_core t th k v pred nn E). now left. Qed.
+
+Lemma ofull_effect t th k v lz n pred nn : nth_error (ths s) t = Some th -> at_pc th = OFull k v lz n pred nn ->
+  absentk k (hp s) /\
+  forall k' v', In (k', v') (absmap (hp (step true s t))) <-> (k' = k /\ v' = v) \/ (k' <> k /\ In (k', v') (absmap (hp s))).
+Proof. intros E Ep. apply (full_effect_core t th k v pred nn E). right. eauto. Qed.
 
 (* the writing step of a Store that found its key *)
 Lemma write_effect t th k v c : nth_error (ths s) t = Some th -> at_pc th = SWrite k v c ->
